@@ -543,6 +543,11 @@ var rR15m = RuleRef{Name: "R15m", Doc: "the four *Multi lock helpers (directly o
 						}
 					}
 				}
+				// the other way of getting distinct ascending positions: sort everything, then keep the first of each run
+				compacted := sortedCompact(rv, fn)
+				if compacted {
+					found = true
+				}
 				var hs, hd bool
 				h := helperOf(rv)
 				if h != nil {
@@ -620,7 +625,7 @@ var rR15m = RuleRef{Name: "R15m", Doc: "the four *Multi lock helpers (directly o
 				walk(rv)
 				_ = hd
 				nRet++
-				if !(elemsOK && any) {
+				if !(elemsOK && any) && !compacted {
 					allDedup = false
 				}
 			}
@@ -630,7 +635,7 @@ var rR15m = RuleRef{Name: "R15m", Doc: "the four *Multi lock helpers (directly o
 	}
 	sorted, dedup, why = analyse(common, 0)
 	c.Add("R15m", fnName(common), "returned stripe positions are sorted ascending on every non-nil return", common.Pos(), sorted, why)
-	c.Add("R15m", fnName(common), "returned stripe positions are de-duplicated (filled from the keys of a map)", common.Pos(), dedup, "the slice elements must come from a range over a map keyed by position")
+	c.Add("R15m", fnName(common), "returned stripe positions are de-duplicated (filled from the keys of a map, or sorted and compacted)", common.Pos(), dedup, "the slice elements must come from a range over a map keyed by position, or from a sorted slice of which only the first element of each run of equal values is kept")
 	// stripe position is a pure function of the key: GetKeyPos = HashKey(key) % len(l.locks)
 	if gp := c.P.Func("memdb", "Locks.GetKeyPos"); gp != nil {
 		pure := true
@@ -656,3 +661,153 @@ var rR15m = RuleRef{Name: "R15m", Doc: "the four *Multi lock helpers (directly o
 		c.Undecided("R15m", "anchor (*Locks).GetKeyPos")
 	}
 }}
+
+// sortedCompact: rv is built by appending, in order, elements of a slice S that sort.Ints/slices.Sort put into ascending
+// order before the loop, and an element equal to its predecessor is skipped (the branch taken when the element equals an
+// element of S or of the result leads back to the loop without passing the append); or rv is slices.Compact of such an S.
+// What comes out is strictly ascending.
+func sortedCompact(rv ssa.Value, fn *ssa.Function) bool {
+	isSortCall := func(in ssa.Instruction) (ssa.Value, bool) {
+		cl, ok := in.(*ssa.Call)
+		if !ok {
+			return nil, false
+		}
+		cf := cl.Call.StaticCallee()
+		if cf == nil || cf.Pkg == nil || len(cl.Call.Args) == 0 {
+			return nil, false
+		}
+		if (cf.Pkg.Pkg.Path() == "sort" && cf.Name() == "Ints") || (cf.Pkg.Pkg.Path() == "slices" && cf.Name() == "Sort") {
+			return cl.Call.Args[0], true
+		}
+		return nil, false
+	}
+	sortedBefore := func(s ssa.Value, b *ssa.BasicBlock) bool {
+		for _, b2 := range fn.Blocks {
+			for _, in := range b2.Instrs {
+				if a, ok := isSortCall(in); ok && canon(a) == canon(s) && b2.Dominates(b) {
+					return true
+				}
+			}
+		}
+		return false
+	}
+	// slices.Compact(S) with S sorted
+	if call, ok := rv.(*ssa.Call); ok {
+		if cf := call.Call.StaticCallee(); cf != nil && cf.Pkg != nil && cf.Pkg.Pkg.Path() == "slices" && cf.Name() == "Compact" && len(call.Call.Args) == 1 {
+			return sortedBefore(call.Call.Args[0], call.Block())
+		}
+	}
+	// the appends that feed rv
+	var appends []*ssa.Call
+	seen := map[ssa.Value]bool{}
+	var walk func(v ssa.Value) bool
+	walk = func(v ssa.Value) bool {
+		if seen[v] {
+			return true
+		}
+		seen[v] = true
+		switch x := v.(type) {
+		case *ssa.Phi:
+			for _, e := range x.Edges {
+				if !walk(e) {
+					return false
+				}
+			}
+			return true
+		case *ssa.Slice:
+			// the empty prefix of the sorted slice (reuse of its array) or of anything else: no elements
+			if k, ok := constInt(x.High); ok && k == 0 {
+				return true
+			}
+			return false
+		case *ssa.MakeSlice:
+			k, ok := constInt(x.Len)
+			return ok && k == 0
+		case *ssa.Const:
+			return x.Value == nil
+		case *ssa.Call:
+			if ap, ok := isAppend(x); ok {
+				appends = append(appends, ap)
+				return walk(ap.Call.Args[0])
+			}
+		}
+		return false
+	}
+	if !walk(rv) || len(appends) == 0 {
+		return false
+	}
+	loops := naturalLoops(fn)
+	for _, ap := range appends {
+		elems, ok := sliceLiteralElems(ap.Call.Args[1])
+		if !ok || len(elems) != 1 {
+			return false
+		}
+		e := elems[0]
+		// e = S[i] with S sorted before the loop the append sits in
+		var src ssa.Value
+		switch y := e.(type) {
+		case *ssa.UnOp:
+			if ia, ok := y.X.(*ssa.IndexAddr); ok {
+				src = ia.X
+			}
+		case *ssa.Index:
+			src = y.X
+		case *ssa.Extract:
+			// range over a slice yields values through an index load in go/ssa; a map/string range does not qualify
+		}
+		if src == nil {
+			return false
+		}
+		var head *ssa.BasicBlock
+		var body map[*ssa.BasicBlock]bool
+		for h, bd := range loops {
+			if bd[ap.Block()] && (body == nil || len(bd) < len(body)) {
+				head, body = h, bd
+			}
+		}
+		if head == nil || !sortedBefore(src, head) {
+			return false
+		}
+		// a test `e == <element>` in the loop whose equal outcome goes round without the append
+		skips := false
+		for b := range body {
+			iff, ok := b.Instrs[len(b.Instrs)-1].(*ssa.If)
+			if !ok {
+				continue
+			}
+			bo, ok := iff.Cond.(*ssa.BinOp)
+			if !ok || (bo.Op != token.EQL && bo.Op != token.NEQ) {
+				continue
+			}
+			other := bo.Y
+			if bo.Y == e {
+				other = bo.X
+			} else if bo.X != e {
+				continue
+			}
+			isElem := false
+			switch o := other.(type) {
+			case *ssa.UnOp:
+				_, isElem = o.X.(*ssa.IndexAddr)
+			case *ssa.Index:
+				isElem = true
+			case *ssa.Phi:
+				isElem = true // the previous element carried round the loop
+			}
+			if !isElem {
+				continue
+			}
+			eqSucc := b.Succs[0]
+			if bo.Op == token.NEQ {
+				eqSucc = b.Succs[1]
+			}
+			if eqSucc != ap.Block() && !reaches(eqSucc, ap.Block(), head) {
+				skips = true
+			}
+		}
+		if !skips {
+			return false
+		}
+	}
+	return true
+}
